@@ -2184,6 +2184,19 @@ func (self *Aof) GetLockCommandExpriedTime(lockDb *LockDB, aofLock *AofLock) uin
 		return aofLock.ExpriedTime
 	}
 	if aofLock.ExpriedFlag&protocol.EXPRIED_FLAG_MILLISECOND_TIME != 0 {
+		// ExpriedTime is the original term (GetAofLockExpriedTime): subtract the whole seconds the hold had already
+		// lived when the record was written (StartTime) and the time elapsed since then, so that a restart does not
+		// renew the hold; an exhausted term yields 0 (no hold), like the second / minute units
+		expriedTimeSeconds := lockDb.currentTime - int64(aofLock.CommandTime)
+		if expriedTimeSeconds >= 0 {
+			if aofLock.StartTime != 0xffff {
+				expriedTimeSeconds += int64(aofLock.StartTime)
+			}
+			if expriedTimeSeconds*1000 < int64(aofLock.ExpriedTime) {
+				return aofLock.ExpriedTime - uint16(expriedTimeSeconds*1000)
+			}
+			return 0
+		}
 		return aofLock.ExpriedTime
 	}
 	if aofLock.ExpriedFlag&protocol.EXPRIED_FLAG_MINUTE_TIME != 0 {
